@@ -47,6 +47,9 @@ func (f *And) Call(s *slip.Scope, args slip.List, depth int) (result slip.Object
 		if result = slip.EvalArg(s, args, i, d2); result == nil {
 			break
 		}
+		if _, ok := result.(slip.NonLocalExit); ok {
+			break
+		}
 	}
 	return
 }
